@@ -110,6 +110,7 @@ func c21Incoming(p rt.Params, rep *rt.Reporter, ci int) {
 		if viol != "" || inc != "" {
 			return
 		}
+		stable := 0
 		for round := 0; ; round++ {
 			if ok, why := w.Quiesce(); !ok {
 				inc = label + ": " + why
@@ -158,14 +159,18 @@ func c21Incoming(p rt.Params, rep *rt.Reporter, ci int) {
 				snapshots++
 				return
 			}
-			if sig != "C21/queued-request-not-run" || round >= 3 {
+			if sig != "C21/queued-request-not-run" || stable >= 2 {
 				viol, vsig = label+": "+v, sig
 				return
 			}
+			if round >= 12 {
+				inc = label + ": a request keeps waiting but the system never stayed quiet long enough to decide: " + v
+				return
+			}
 			// thawing after a removed task is clock driven (100 ms rounds): the starvation must persist
-			// over a sustained quiescent window before it counts
-			if ok, _ := w.Q.Sustained(1200 * time.Millisecond); !ok {
-				continue
+			// over two sustained quiescent windows (12 thaw periods each) before it counts
+			if ok, _ := w.Q.Sustained(1200 * time.Millisecond); ok {
+				stable++
 			}
 		}
 	}
@@ -386,6 +391,7 @@ func c21Outgoing(p rt.Params, rep *rt.Reporter, ci int) {
 		if viol != "" || inc != "" {
 			return
 		}
+		stable := 0
 		for round := 0; ; round++ {
 			if ok, why := w.Quiesce(); !ok {
 				inc = label + ": " + why
@@ -420,12 +426,16 @@ func c21Outgoing(p rt.Params, rep *rt.Reporter, ci int) {
 				snapshots++
 				return
 			}
-			if sig != "C21/queued-request-not-run" || round >= 3 {
+			if sig != "C21/queued-request-not-run" || stable >= 2 {
 				viol, vsig = label+": "+v, sig
 				return
 			}
-			if ok, _ := w.Q.Sustained(1200 * time.Millisecond); !ok {
-				continue
+			if round >= 12 {
+				inc = label + ": a request keeps waiting but the system never stayed quiet long enough to decide: " + v
+				return
+			}
+			if ok, _ := w.Q.Sustained(1200 * time.Millisecond); ok {
+				stable++
 			}
 		}
 	}
